@@ -397,6 +397,40 @@ fn check_node(n: &Zoo, ctx: &str, fails: &mut Vec<Fail>, evals: &mut u64) -> Opt
         Ok(other) => fails.push(("syntax".into(), format!("from_syntax(to_syntax) {ctx}"), format!("{other:?}"))),
         Err(site) => fails.push(("panic".into(), format!("from_syntax(to_syntax) {ctx}"), site)),
     }
+    // provided helpers: refresh_private keeps the node up to bound names and invents new bound names;
+    // apply_slotmap with an injective renaming onto unrelated names renames exactly the free occurrences
+    match catch(|| n.refresh_private()) {
+        Err(site) => fails.push(("panic".into(), format!("refresh_private {ctx}"), site)),
+        Ok(r) => {
+            let (rv, rf) = read_back(&r);
+            let ran = analyse(rv, &rf);
+            if ran.canon_bound_only != an.canon_bound_only {
+                fails.push(("refresh-private".into(), format!("refresh_private changes the node beyond its bound names {ctx}"), format!("{r:?}")));
+            }
+            let old: BTreeSet<Slot> = an.all.iter().copied().collect();
+            if ran.bound.iter().any(|s| old.contains(s)) {
+                fails.push(("refresh-private".into(), format!("refresh_private keeps an old bound name {ctx}"), format!("{r:?}")));
+            }
+        }
+    }
+    {
+        let free: BTreeSet<Slot> = an.free.iter().copied().collect();
+        let ren: SlotMap = free.iter().enumerate().map(|(i, s)| (*s, Slot::named(&format!("ren{i}")))).collect();
+        let bound_set: BTreeSet<Slot> = an.bound.iter().copied().collect();
+        if free.is_disjoint(&bound_set) {
+            match catch(|| n.apply_slotmap(&ren)) {
+                Err(site) => fails.push(("panic".into(), format!("apply_slotmap {ctx}"), site)),
+                Ok(r) => {
+                    let (rv, rf) = read_back(&r);
+                    let ran = analyse(rv, &rf);
+                    let want: Vec<Slot> = an.free.iter().map(|s| ren[*s]).collect();
+                    if ran.free != want || ran.canon != an.canon || ran.bound != an.bound {
+                        fails.push(("apply-slotmap".into(), format!("apply_slotmap with an injective renaming {ctx}"), format!("gives {r:?}")));
+                    }
+                }
+            }
+        }
+    }
     // shape
     let (sh, bij) = match catch(|| n.weak_shape()) {
         Ok(x) => x,
@@ -481,7 +515,7 @@ impl Prop for ShapesProp {
         vec!["shadowing_free_left_of_binder", "shadowing_free_right_of_binder", "repeated_free_slot", "equivalent_pair_with_different_names", "inequivalent_pair"]
     }
     fn rule(&self) -> String {
-        "For a zoo language produced by define_language! (plain slots, Bind<AppliedId>, Bind<Bind<..>>, Bind before/after a free child, Bind<Slot>, slot next to a binder, payload types u32/i64/bool/char/Symbol, nullary): every variant template x every assignment of its slot positions from a pool of 3 (thorough 4) names x three name->slot schemes. Each node is judged against an independent scoping-aware analysis of its structural read-back: occurrence lists by position, public/private partition, slots(), to_syntax/from_syntax, weak_shape (renaming-equivalent to the node, bijection onto the node's free slots, apply_slotmap(bij) gives the node back up to bound names, idempotent). All pairs of nodes of a template: shapes equal iff canonical forms (free names by first occurrence, bound names by binder order) are equal. Non-trivial = node with at least one slot.".into()
+        "For a zoo language produced by define_language! (plain slots, Bind<AppliedId>, Bind<Bind<..>>, Bind before/after a free child, Bind<Slot>, slot next to a binder, payload types u32/i64/bool/char/Symbol, nullary): every variant template x every assignment of its slot positions from a pool of 3 (thorough 4) names x three name->slot schemes. Each node is judged against an independent scoping-aware analysis of its structural read-back: occurrence lists by position, public/private partition, slots(), to_syntax/from_syntax, weak_shape (renaming-equivalent to the node, bijection onto the node's free slots, apply_slotmap(bij) gives the node back up to bound names, idempotent), refresh_private (same node up to bound names, all bound names new), apply_slotmap with an injective renaming (renames exactly the free occurrences). All pairs of nodes of a template: shapes equal iff canonical forms (free names by first occurrence, bound names by binder order) are equal. Non-trivial = node with at least one slot.".into()
     }
     fn assumptions(&self) -> Vec<String> {
         vec!["AppliedId children carry bijective maps (an invariant of the crate), so slot names inside one child are distinct".into()]
